@@ -160,9 +160,12 @@ class PragmaExtension(ParserExtension):
         after_whitespace_index, _ = ParserHelper.extract_spaces_verified(
             line_after_prefix, after_whitespace_index + len(PragmaToken.pragma_title)
         )
-        command_data = line_after_prefix[
-            after_whitespace_index : -len(PragmaToken.pragma_suffix)
-        ]
+        suffix_length = len(
+            PragmaToken.pragma_alternate_suffix
+            if line_after_prefix.endswith(PragmaToken.pragma_alternate_suffix)
+            else PragmaToken.pragma_suffix
+        )
+        command_data = line_after_prefix[after_whitespace_index:-suffix_length]
         after_command_index, command = ParserHelper.extract_until_spaces_verified(
             command_data, 0
         )
@@ -359,6 +362,7 @@ class PragmaToken(MarkdownToken):
     pragma_alternate_prefix = "<!---"
     pragma_title = "pyml "
     pragma_suffix = "-->"
+    pragma_alternate_suffix = "--->"
 
     def __init__(self, pragma_lines: Dict[int, str]) -> None:
         self.__pragma_lines = pragma_lines
